@@ -7,6 +7,30 @@ PLAN = {
         rule="every preset overload x site (pair) x argument tuple over {0,-1,0.5,2} on shapes S1..S7; every raw term of 1,2,3,4,6 operators "
              "(all c/c+ patterns x all index tuples, M<=3); BFS depth<=2 over the generator alphabet (term lists add up). "
              "non-trivial = H non-diagonal or with a degenerate level"),
+    "C03": dict(
+        engine="modelx", technique="explicit-state BFS over model histories on the real Lattice; every state x partition evaluated against one dense 2^N diagonalisation",
+        level_text="every model reachable by <=2-3 generator calls on shapes S1-S7 (M<=4; thorough M<=6) under default / ignored / custom partitions: block spectra, eigenvectors, ground energy and label lookups compared with a dense full-Fock diagonalisation",
+        runs=[("san", "hx", "C03", 8, [])], thorough_extra=[("cplx", "hx", "C03", 8, [])],
+        rule="BFS over generator histories (dedup by Fock matrix of the stored terms) x partitions; non-trivial = H non-diagonal or degenerate"),
+    "C09": dict(
+        engine="modelx", technique="explicit-state BFS over model histories x beta grid on the real pipeline; dense Gibbs-state traces as oracle",
+        level_text="every model state (incl. +-1e3 level offsets) x beta in {1e-3,0.5,5,40,1e3} x all index pairs: weights, normalisation, ratios, and every average accessor compared with Tr(rho O) on the full Fock space",
+        runs=[("san", "hx", "C09", 16, [])], thorough_extra=[("cplx", "hx", "C09", 16, [])],
+        rule="BFS over generator histories incl. offset generators x 5 inverse temperatures x partitions {default, ignored}"),
+    "C10": dict(
+        engine="modelx", technique="explicit-state BFS over model histories x partitions; stored sparse operators rotated back with the stored eigenvectors and compared with Jordan-Wigner matrices",
+        level_text="every model state x partitions {default, ignored, custom} x every index: c, c+, c+_i c_j computed one by one and through the container, rotated back = JW matrix; adjoint relation; CAR over all blocks; block mapping covers every non-zero element",
+        runs=[("san", "hx", "C10", 16, [])], thorough_extra=[("cplx", "hx", "C10", 16, [])],
+        rule="BFS over generator histories x 3 partitions x all indices"),
+    "C01": dict(
+        engine="modelx", technique="explicit-state BFS over model histories x beta x (i,j) x Matsubara set on the real pipeline (two object paths); dense Lehmann reference with the documented dropped-term allowance",
+        level_text="every model state x beta in {0.5,5,40}(+1e-3,1e3) x all (i,j) x n in {-3..2,+-50} x partitions {default, ignored}: stand-alone GreensFunction and GFContainer agree and equal the full-Fock ED value within the documented dropped/merged-term allowance",
+        runs=[("san", "hx", "C01", 16, [])], thorough_extra=[("cplx", "hx", "C01", 16, [])],
+        rule="BFS over generator histories x betas x all index pairs x Matsubara numbers; non-trivial = H non-diagonal or degenerate"),
+    "C11": dict(
+        engine="modelx", technique="explicit-state BFS over model histories x beta x (i,j) x z grid x tau grid; identities + dense G(tau) reference",
+        level_text="every model state x beta in {0.5,5,40,1e3} x all (i,j): Hermitian symmetry at on- and off-axis z, 1/z tail at |z|=1e6, sign of Im G_ii, of_tau against the dense definition at 5 tau points incl. both ends, jump and occupancy relations",
+        runs=[("san", "hx", "C11", 16, [])], thorough_extra=[("cplx", "hx", "C11", 16, [])],
+        rule="BFS over generator histories x betas x all index pairs x 13 z points x 5 tau points"),
 }
-
 NOT_APPLICABLE = {}
